@@ -400,13 +400,14 @@ func (x *Exec) loopCut(fr *Frame, st *State, b *ssa.BasicBlock, backEdge bool) b
 		x.assumeAllocated(st, nv)
 		fr.regs[phi] = nv
 	}
-	for al := range eff.cells {
+	// (in source order: the numbering of fresh names, and with it the obligation text, must not depend on map iteration order)
+	for _, al := range sortedAllocs(eff.cells) {
 		if p, ok := fr.regs[al]; ok && p.K == VPtr && p.Ptr.Base == PCell {
 			nv := x.freshLike(st, &Val{Typ: st.CellTypes[p.Ptr.Cell]}, "cell:"+al.Comment)
 			st.Cells[p.Ptr.Cell] = nv
 		}
 	}
-	for al := range eff.objs {
+	for _, al := range sortedAllocs(eff.objs) {
 		if p, ok := fr.regs[al]; ok && p.K == VPtr && p.Ptr.Base == PObj {
 			t := ptrElem(al.Type())
 			nv := x.freshLike(st, &Val{Typ: t}, "obj:"+al.Comment)
@@ -486,6 +487,23 @@ func freshValLike(cur *Val, t types.Type, name string) *Val {
 		return cur
 	}
 	return nv
+}
+
+func sortedAllocs(m map[*ssa.Alloc]bool) []*ssa.Alloc {
+	var out []*ssa.Alloc
+	for a := range m {
+		out = append(out, a)
+	}
+	sort.Slice(out, func(i, j int) bool {
+		if out[i].Pos() != out[j].Pos() {
+			return out[i].Pos() < out[j].Pos()
+		}
+		if out[i].Comment != out[j].Comment {
+			return out[i].Comment < out[j].Comment
+		}
+		return out[i].Name() < out[j].Name()
+	})
+	return out
 }
 
 func sortedTypes(m map[string]types.Type) []types.Type {
